@@ -21,7 +21,7 @@ def adversarial(rng, count, max_n):
     for _ in range(count):
         dt = rng.choice(lib.DTYPES)
         ulo, uhi = numgen.u_range(dt) if dt != "bool" else (0, 1)
-        kind = rng.choice(["uniform", "alternate", "dominant80", "dominant90", "tiny-clusters", "distinct-pow2"])
+        kind = rng.choice(["uniform", "alternate", "dominant80", "dominant90", "tiny-clusters", "distinct-pow2", "regular-runs", "regular-runs"])
         n = rng.randint(50, max_n)
         if kind == "uniform":
             us = [rng.randint(ulo, uhi) for _ in range(n)]
@@ -37,6 +37,23 @@ def adversarial(rng, count, max_n):
                 us += [dom] * run
                 k = max(1, int(round(run * (1 - f) / f)))
                 us += [rng.randint(ulo, uhi) for _ in range(k)] if rng.random() < 0.9 else []
+            us = us[:n]
+        elif kind == "regular-runs":
+            # dominant value in runs of exactly r, one other value between runs (frequency r/(r+1) >= 0.8):
+            # the worst case for the per-run cost of run-length coding
+            n = max(n, 1100)
+            r = rng.choice([4, 4, 5, 6, 9])
+            dom = rng.randint(ulo, uhi)
+            oth = [u for u in (ulo, uhi, min(uhi, dom + 1), max(ulo, dom - 1)) if u != dom] or [dom]
+            wide = rng.random() < 0.4 and uhi - ulo > 1000
+            us = []
+            while len(us) < n:
+                if wide:
+                    # the run-length range itself is wide: values near dom on both sides
+                    us += [min(uhi, max(ulo, dom + rng.choice([-1, 0, 0, 0, 1]))) for _ in range(r)]
+                else:
+                    us += [dom] * r
+                us.append(rng.choice(oth))
             us = us[:n]
         elif kind == "tiny-clusters":
             n = max(n, 1500)
